@@ -45,7 +45,7 @@ checks = {
          'After every upsert of histories of 2..12 steps that alternate cases (nested choices, shorthand cases, cases with leaves/leaf-lists/containers/lists, choices in lists) the store is scanned for choices holding data of two cases, compared with the model and exported.',
          'trusts dp.Apply/clearOtherCases (model); targets: reference store (also one that hands out nodes for containers holding nothing yet, and one whose new nodes hold data of a case already), nodeutil.Reflect and nodeutil.Node over Go maps (read back with package reflect)', 'DESIGN.md 3/C09'),
  'C12': ('fault_enumeration', 'runtime monitor: recorded callback trace + offline trace checker; every fault position k of every scenario enumerated',
-         'Each scenario (operation x entry point x trees) is run once fault-free to measure its callback trace, then once per callback position with that callback failing on the source or target side; the offline checker verifies begin/end pairing per node identity, the set of notified nodes (none but edited nodes and the edit root's ancestors, and each of those ancestors), wrapping of the injected error and absence of writes after the failure. Exhaustive in k per scenario; scenarios are sampled.',
+         'Each scenario (operation x entry point x trees) is run once fault-free to measure its callback trace, then once per callback position with that callback failing on the source or target side; the offline checker verifies begin/end pairing per node identity, the set of notified nodes (none but edited nodes and the ancestors of the edit root, and each of those ancestors), wrapping of the injected error and absence of writes after the failure. Exhaustive in k per scenario; scenarios are sampled.',
          'trusts the recording wrapper (pass-through) and the reference store', 'DESIGN.md 3/C12'),
  'C18': ('exploration', 'runtime monitor: reference model (delete/replace) vs store read directly after every step + key-uniqueness scan + Find probes',
          'Histories of 3..15 delete / replace / insert / upsert operations (first, middle, last, only entry; whole list; container; delete-then-reinsert; several deletes through one held list selection; payloads stating another key than that of the addressed entry) are replayed against model and library; after each step the store equals the model, no list holds a duplicate key, the removed node is no longer found and remaining nodes are.',
